@@ -46,6 +46,49 @@ def combined_problems(files, prefixes):
     return probs
 
 
+def by_folder(res):
+    """{folder: {file class: digest}}; comment lines that carry the folder's own name (GTF title line) are left out"""
+    import hashlib
+    out = {}
+    files = res.get("files")
+    for k, v in res["digests"].items():
+        if "/" not in k:
+            continue
+        x = k.split("/")[0]
+        if files is not None and k in files:
+            body = "\n".join(l for l in files[k].split("\n") if not (l.startswith("#") and x in l.split()))
+            v = hashlib.sha256(body.encode()).hexdigest()[:20]
+        out.setdefault(x, {})[common.file_class(k)] = v
+    return out
+
+
+def anonymous_problems(chk, res, solos, perm):
+    """the folder names are IsoQuant's choice: every experiment must own one output folder whose files equal its stand-alone
+    results (compared per file class, i.e. modulo the folder/prefix name)"""
+    problems = []
+    folders = by_folder(res)
+    used = set()
+    for i, g in enumerate(solos):
+        if g is None or g["exit"] != 0:
+            if chk is not None:
+                chk.probes["standalone_reference_failed_skipped"] += 1
+            continue
+        want = by_folder(g).get("E%d" % i, {})
+        hit = [x for x, fl in sorted(folders.items()) if x not in used and fl == want]
+        if hit:
+            used.add(hit[0])
+            continue
+        pos = list(perm).index(i)
+        near = sorted(folders.items(), key=lambda kv: len([c for c in set(want) | set(kv[1]) if want.get(c) != kv[1].get(c)]))
+        diff = sorted(c for c in set(want) | set(near[0][1]) if want.get(c) != near[0][1].get(c)) if near else []
+        problems.append("experiment E%d (%s of %d in the list) has no output folder with its stand-alone results; folders: %s; "
+                        "closest %s differs in %s" % (i, ["first", "second", "third"][pos], len(perm), sorted(folders),
+                                                      near[0][0] if near else None, ", ".join(diff[:6])))
+    if len(folders) != len(solos):
+        problems.append("%d experiments in the list, %d output folders: %s" % (len(solos), len(folders), sorted(folders)))
+    return problems
+
+
 def run(chk, orch):
     quick = chk.tier == "quick"
     chk.rule = ("each evaluation = one multi-experiment invocation (2-3 experiments from one YAML or list file, a permutation "
@@ -106,18 +149,25 @@ def run(chk, orch):
                 opts = dict(opts, read_group="file_name")
                 wls[wi] = (spec, opts)
             for i in range(n):
-                orch.submit(0, "scenarios:pipeline", common.job_args(spec, dict(opts, only_exp=i), common.GOLDEN_CELL),
+                orch.submit(0, "scenarios:pipeline", common.job_args(spec, dict(opts, only_exp=i), common.GOLDEN_CELL, want=["files"]),
                             tag=("solo", wi, i))
             perms = list(itertools.permutations(range(n)))
             if quick:
                 perms = perms[:2] if n == 2 else [perms[0], perms[3], perms[5]]
             ci = 0
             for perm in perms:
-                for mode in (["yaml", "bam_list"] if (not quick or perm == perms[0]) and not opts.get("yaml_only") else ["yaml"]):
-                    for w in ([1, 2, 4] if not quick else [1, 3]):
+                modes = ["yaml", "bam_list"] if (not quick or perm == perms[0]) and not opts.get("yaml_only") else ["yaml"]
+                if not opts.get("yaml_only") and (perm == perms[-1] if quick else True) and (not quick or wi < 3):
+                    # list files whose experiments are separated by empty lines, or carry one and the same name: every
+                    # experiment must still get its own results (the folder names are IsoQuant's choice)
+                    modes += ["bam_list:blank", "bam_list:dup"]
+                for mode in modes:
+                    for w in ([1, 2, 4] if not quick else ([1, 3] if ":" not in mode else [2])):
                         cell = dict(common.GOLDEN_CELL, threads=w, hashseed=chk.rng.choice([0, 1, 2]),
                                     sched={"policy": chk.rng.choice(common.POLICIES), "seed": chk.rng.randrange(1000)})
-                        o = dict(opts, exp_order=list(perm), input_mode=mode)
+                        o = dict(opts, exp_order=list(perm), input_mode=mode.split(":")[0])
+                        if ":" in mode:
+                            o["list_names"] = mode.split(":")[1]
                         a = common.job_args(spec, o, cell, want=["files"] if True else [])
                         orch.submit(cell["hashseed"], "scenarios:pipeline", a, tag=("multi", wi, ci))
                         plan[(wi, ci)] = (perm, mode, cell, a)
@@ -147,6 +197,8 @@ def run(chk, orch):
             problems = []
             if res["exit"] != 0:
                 problems.append("multi-experiment run failed: exit %s %s" % (res["exit"], res.get("failure_site")))
+            elif ":" in mode:
+                problems += anonymous_problems(chk, res, [solo.get((wi, i)) for i in range(spec["n_exp"])], perm)
             else:
                 for i in range(spec["n_exp"]):
                     g = solo.get((wi, i))
@@ -161,8 +213,9 @@ def run(chk, orch):
                         pos = list(perm).index(i)
                         problems.append("experiment %s (processed %s of %d) differs from its stand-alone run in: %s" % (
                             name, ["first", "second", "third"][pos], len(perm), ", ".join(common.file_class(b) for b in bad)))
-                cp = combined_problems(res.get("files") or {}, ["E%d" % i for i in range(spec["n_exp"])])
-                problems += cp
+                if ":" not in mode:
+                    cp = combined_problems(res.get("files") or {}, ["E%d" % i for i in range(spec["n_exp"])])
+                    problems += cp
             if not problems:
                 continue
             first = problems[0]
@@ -181,7 +234,7 @@ def run(chk, orch):
 
 
 def replay(doc, orch):
-    ids = [orch.submit(j["hashseed"], j["fn"], j["args"]) for j in doc["solos"]]
+    ids = [orch.submit(j["hashseed"], j["fn"], dict(j["args"], want=["files"])) for j in doc["solos"]]
     rid = orch.submit(doc["run"]["hashseed"], doc["run"]["fn"], dict(doc["run"]["args"], want=["files"]))
     out = orch.run_all()
     res = out[rid][1]["res"]
@@ -189,6 +242,10 @@ def replay(doc, orch):
     if res["exit"] != 0:
         problems.append("multi-experiment run failed: exit %s\n%s" % (res["exit"], res.get("log_tail")))
     n = len(ids)
+    if (doc["run"]["args"].get("opts") or {}).get("list_names"):
+        perm = (doc["run"]["args"].get("opts") or {}).get("exp_order") or list(range(n))
+        problems += anonymous_problems(None, res, [out[j][1]["res"] for j in ids], perm)
+        return bool(problems), "\n".join(problems)
     for i, jid in enumerate(ids):
         g = out[jid][1]["res"]
         name = "E%d" % i
